@@ -35,13 +35,19 @@ def make(hname, compiled, pair, nthreads=2):
     from dissect.cstruct import cstruct
 
     text, datas = HARNESS[hname]
-    cs = cstruct()
-    cs.load(text, compiled=compiled)
-    S = cs.S
-    pre = [S(d) for d in datas]  # values for the dump bodies (parsed before the threads start)
+    kinds = pair.split("/")
+
+    def fresh():
+        """Fresh type objects for every execution: races on the *first* use of a shared object (lazily prepared state) stay visible."""
+        cs = cstruct()
+        cs.load(text, compiled=compiled)
+        return cs.S
+
+    holder = {}
 
     def parse_body(i):
         def body():
+            S = holder["S"]
             st = io.BytesIO(datas[i])
             v = S(st)
             return ("parse", repr(impl.norm(v)), st.tell())
@@ -49,11 +55,12 @@ def make(hname, compiled, pair, nthreads=2):
 
     def dumps_body(i):
         def body():
-            return ("dumps", pre[i].dumps().hex())
+            return ("dumps", holder["pre"][i].dumps().hex())
         return body
 
     def deref_body(i):
         def body():
+            S = holder["S"]
             st = io.BytesIO(datas[i])
             v = S(st)
             out = []
@@ -67,14 +74,19 @@ def make(hname, compiled, pair, nthreads=2):
             return ("deref", repr(impl.norm(v)), out, st.tell())
         return body
 
-    kinds = pair.split("/")
     mk = {"parse": parse_body, "dumps": dumps_body, "deref": deref_body}
 
     def bodies():
+        holder["S"] = fresh()
+        if "dumps" in kinds:
+            holder["pre"] = [holder["S"](d) for d in datas]  # values for the dump bodies (parsed before the threads start)
         return [mk[kinds[i % 2]](i) for i in range(nthreads)]
 
     expected = []
     for b in bodies():
+        holder["S"] = fresh()  # sequential reference: every body alone on fresh type objects
+        if "dumps" in kinds:
+            holder["pre"] = [holder["S"](d) for d in datas]
         try:
             expected.append(("ok", b()))
         except Exception as e:  # noqa: BLE001
